@@ -201,12 +201,12 @@ def jobs(tier, scale=1.0):
     for i in range(8):
         g = light[i::8]
         js.append({"cfg": "rel64", "unit": "c15:unit_twins",
-                   "params": {"functions": g, "sizes": [16, 33, 100] if q else [1, 16, 17, 33, 64, 100, 300], "reps": 6 if q else 30}})
+                   "params": {"functions": g, "sizes": [16, 33, 100] if q else [1, 16, 17, 33, 64, 100, 300], "reps": 6 if q else 120}})
     for i in range(8):
         g = heavy[i::8]
         if g:
             js.append({"cfg": "rel64", "unit": "c15:unit_twins",
-                       "params": {"functions": g, "sizes": [32], "reps": 4 if q else 30}})
+                       "params": {"functions": g, "sizes": [32], "reps": 4 if q else 60}})
     return js
 
 
